@@ -31,6 +31,10 @@ CORPUS = [
     dict(params=[P("x", "{k}"), P("y", "a"), P("z", "a")], ret=None, shapes={"x": [2], "y": [3], "z": [4]}, ret_shape=[], ints={"k": 2}),
     dict(params=[P("x", "a {k}+a"), P("y", "a")], ret={"dim": "{k}", "cat": "Float"}, shapes={"x": [3, 5], "y": [4]}, ret_shape=[2], ints={"k": 2}),
     dict(params=[P("x", "a"), P("y", "a {k}")], ret=None, shapes={"x": [3], "y": [3, 3]}, ret_shape=[], ints={"k": 2}),
+    # the failing parameter is *rest (one element): the element binds a fresh name (c) before the axis that disagrees -- nothing of it may be listed
+    dict(params=[P("x", "a"), dict(P("rest", "c a"), vararg=True, shapes=[[5, 3]])], ret=None, shapes={"x": [2]}, ret_shape=[]),
+    dict(params=[P("x", "a b"), P("y", "b"), dict(P("rest", "*s q a"), vararg=True, shapes=[[7, 7, 4, 9]])], ret=None, shapes={"x": [2, 3], "y": [3]}, ret_shape=[]),
+    dict(params=[P("x", "a"), dict(P("rest", "c a"), vararg=True, shapes=[[5, 2]])], ret={"dim": "c c", "cat": "Float"}, shapes={"x": [2]}, ret_shape=[5, 6]),
     # wrong dtype only
     dict(params=[P("x", "a"), P("y", "a", "Int")], ret=None, shapes={"x": [3], "y": [3]}, ret_shape=[]),
     # well-typed
@@ -156,7 +160,7 @@ def main():
     # model (cases without unions)
     terms, mcases = [], []
     for c in cases:
-        if any(("union" in p and not p.get("decoy")) or "pytree" in p for p in c["params"]) or (c["ret"] and "pytree" in c["ret"]):
+        if any(("union" in p and not p.get("decoy")) or "pytree" in p or p.get("vararg") for p in c["params"]) or (c["ret"] and "pytree" in c["ret"]):
             continue
         ps = [c02.use_coq(p["dim"], cat_dtypes[p["cat"]], c["shapes"][p["name"]], c["dtypes"].get(p["name"], "float32")) for p in c["params"]]
         ret = "(@None step)" if not c["ret"] else "(Some %s)" % c02.use_coq(c["ret"]["dim"], cat_dtypes[c["ret"]["cat"]], c["ret_shape"], c["ret_dtype"])
